@@ -289,9 +289,46 @@ def coded_kind(n, length):
 # ------------------------------------------------------------------------------------------------
 # data
 
-def make_rows(rng, n_src, rank, exact, with_identity):
+DTYPES = ["int64", "int32", "int16", "bool", "float32"]
+
+
+def make_rows(rng, n_src, rank, exact, with_identity, dtype="float64"):
+    """rows of source data, every value exactly representable in `dtype` (class codes / counts for the
+    integer types, flags for bool, short dyadics for float32)"""
     rows = []
     tags = []
+    if dtype != "float64":
+        def rnd():
+            if dtype == "bool":
+                return [float(rng.random() < 0.5) for _ in range(n_src)]
+            if dtype == "float32":
+                return [rng.randrange(-800, 801) / 8.0 for _ in range(n_src)]
+            return [float(rng.randrange(-300, 301)) for _ in range(n_src)]
+        const = 1.0 if dtype == "bool" else float(rng.choice([5, 7, 255, -3]))
+        if rank >= 2 and with_identity:
+            for s in range(n_src):
+                rows.append([1.0 if j == s else 0.0 for j in range(n_src)])
+                tags.append("onehot")
+        if rank == 1:
+            if rng.random() < 0.4:
+                rows.append([const] * n_src)
+                tags.append("const")
+            else:
+                rows.append(rnd())
+                tags.append("random")
+            return rows, tags, []
+        rows.append([const] * n_src)
+        tags.append("const")
+        for _ in range(2):
+            rows.append(rnd())
+            tags.append("random")
+        lead = [len(rows)]
+        if rank == 3:
+            if len(rows) % 2:
+                rows.append(rnd())
+                tags.append("random")
+            lead = [2, len(rows) // 2]
+        return rows, tags, lead
     if rank >= 2 and with_identity:
         for s in range(n_src):
             rows.append([1.0 if j == s else 0.0 for j in range(n_src)])
@@ -332,6 +369,10 @@ def run_impl(c, src, dst):
     n_src = rows.shape[1]
     lead = c["lead"]
     data = rows.reshape(tuple(lead) + (n_src,)) if c["rank"] > 1 else rows.reshape(n_src)
+    if c.get("dtype", "float64") != "float64":
+        cast = data.astype(c["dtype"])
+        assert np.array_equal(cast.astype(float), data), "generated values must be exact in the source dtype"
+        data = cast
     dims = ["lead%d" % i for i in range(len(lead))] + [DIM[c["kind"]]]
     da = ux.UxDataArray(data, dims=dims, uxgrid=src, name="v")
     if c["method"] == "nn":
@@ -401,23 +442,26 @@ def check_idw(c, out, table):
     if n_src != len(table[0]):
         return "idw_neighbours", "data length %d vs %d source elements" % (n_src, len(table[0]))
     oh = [l for l in range(R) if tags[l] == "onehot"]
+    # results are float64 (exact rational combination within double rounding) unless the source is float32
+    f32 = c.get("dtype") == "float32"
+    REL, CREL = (1e-6, 1e-6) if f32 else (1e-9, 1e-12)
     for i, D in enumerate(table):
         core, allowed = neighbour_sets(D, k)
         for l in range(R):
             v = float(out[l][i])
             vals = [rows[l][s] for s in allowed]
             lo, hi = min(vals), max(vals)
-            slack = 1e-9 * max(1.0, abs(lo), abs(hi))
+            slack = REL * max(1.0, abs(lo), abs(hi))
             if not (lo - slack <= v <= hi + slack) or math.isnan(v):
                 return ("idw_const" if tags[l] == "const" else "idw_bounds"), \
                     "destination %d row %d (%s): %r outside [%r, %r] of its %d nearest sources" % (i, l, tags[l], v, lo, hi, k)
-            if tags[l] == "const" and abs(v - rows[l][0]) > 1e-12 * max(1.0, abs(rows[l][0])):
+            if tags[l] == "const" and abs(v - rows[l][0]) > CREL * max(1.0, abs(rows[l][0])):
                 return "idw_const", "destination %d: constant %r became %r" % (i, rows[l][0], v)
         if oh:
             W = [float(out[l][i]) for l in oh]          # weight of source s at destination i
             if any(w < 0.0 for w in W):
                 return "idw_weights_nonneg", "destination %d: negative weight" % i
-            if abs(sum(W) - 1.0) > 1e-9:
+            if abs(sum(W) - 1.0) > REL:
                 return "idw_weights_sum", "destination %d: weights sum to %r" % (i, sum(W))
             supp = {s for s in range(n_src) if W[s] != 0.0}
             if not (core <= supp <= allowed) or (len(allowed) == k and len(supp) != k):
@@ -434,7 +478,7 @@ def check_idw(c, out, table):
                     continue
                 comb = sum(W[s] * rows[l][s] for s in supp)
                 scale = max(1.0, max(abs(rows[l][s]) for s in supp))
-                if abs(comb - float(out[l][i])) > 1e-9 * scale:
+                if abs(comb - float(out[l][i])) > REL * scale:
                     return "idw_combination", "destination %d row %d: %r is not the weighted mean %r of its neighbours" % (
                         i, l, float(out[l][i]), comb)
     return None
@@ -539,13 +583,14 @@ def gen_cases(ck, gs_src, gs_dst, note, sd, per_pair):
             method = "nn"
         rank = rng.choice([1, 2, 2, 2, 3])
         exact = rng.random() < 0.6
-        rows, tags, lead = make_rows(rng, n_src, rank, exact, with_identity=(n_src <= 64))
+        dtype = "float64" if rng.random() < 0.55 else rng.choice(DTYPES)
+        rows, tags, lead = make_rows(rng, n_src, rank, exact, with_identity=(n_src <= 64), dtype=dtype)
         remap_to = rng.choice(KINDS) if note != "same" or rng.random() < 0.4 else kind
         if note == "bisector" and rng.random() < 0.75:
             remap_to = "nodes"
         c = {"src": gs_src, "dst": gs_dst, "same": note == "same", "note": note, "method": method, "kind": kind,
              "remap_to": remap_to, "coord_type": rng.choice(["spherical", "cartesian"]), "rank": rank, "lead": lead,
-             "rows": rows, "tags": tags, "exact": exact}
+             "rows": rows, "tags": tags, "exact": exact, "dtype": dtype}
         if method == "idw":
             c["k"] = min(n_src, rng.choice([2, 2, 3, min(8, n_src), rng.randrange(2, n_src + 1), n_src]))
             c["power"] = rng.choice([2, 2, 1, 3, 0, 5, 1.5, 0.5])
@@ -567,6 +612,7 @@ def run_case(ck, c, src, dst, sd, dd, stats=None, model_items=None):
     n_dest = dd.n[c["remap_to"]]
     coded = coded_kind(n, n_src)
     info = {"method": c["method"], "coord_type": c["coord_type"], "kind": kind, "remap_to": c["remap_to"], "rank": c["rank"],
+            "dtype": c.get("dtype", "float64"),
             "after_history": bool(c.get("pre") or c.get("mut")), "mutators": [m["op"] for m in c.get("mut", [])],
             "trailing_length_matches_other_kind_first": coded != kind,
             "single_destination_point": n_dest == 1,
@@ -724,8 +770,9 @@ def gen_history_case(ck, gs_src, gs_dst, note, n_src_kinds):
     n_src = n_src_kinds[kind]
     method = "idw" if (rng.random() < 0.4 and n_src >= 2) else "nn"
     rank = rng.choice([1, 2, 2])
-    rows, tags, lead = make_rows(rng, n_src, rank, True, with_identity=(n_src <= 64))
-    c = {"src": gs_src, "dst": gs_dst, "same": note == "same", "note": note, "method": method, "kind": kind,
+    dtype = "float64" if rng.random() < 0.7 else rng.choice(DTYPES)
+    rows, tags, lead = make_rows(rng, n_src, rank, True, with_identity=(n_src <= 64), dtype=dtype)
+    c = {"dtype": dtype, "src": gs_src, "dst": gs_dst, "same": note == "same", "note": note, "method": method, "kind": kind,
          "remap_to": rng.choice(KINDS), "coord_type": ct, "rank": rank, "lead": lead, "rows": rows, "tags": tags, "exact": True}
     if method == "idw":
         c["k"] = min(n_src, rng.choice([2, 3, 4]))
@@ -815,7 +862,8 @@ def main(ck):
         "stellate/dual/partial, rotated, a fifth with a node on a pole), about half of the sources and destinations SUPPLY their own face and/or edge centres (moved 10-30% "
         "off the corner average / mid-point, inside the element) as lon/lat only, xyz only or both, through from_topology or a "
         "UGRID-style dataset; the oracle judges both coordinate types against the supplied centres.  Cases: data on nodes / faces / edges (dimension name says which), rank 1-3, rows = "
-        "one-hot rows of every source element + a constant row + random rows (exact dyadics or generic floats); all three "
+        "one-hot rows of every source element + a constant row + random rows (exact dyadics or generic floats); 45% of the cases carry the data as "
+        "int64/int32/int16/bool/float32 (NN must return the source values exactly, IDW the convex combination in float64, float32 within 1e-6); all three "
         "destinations; both coordinate types; NN and IDW with k in {2,3,8,n,random} and power in {0,0.5,1,1.5,2,3,5}.  "
         "Histories on the SAME source/destination grid objects: 0-3 earlier remaps (same and other kinds / coordinate types / methods), then public mutators of the source (sometimes destination) coordinates - construct_face_centers (both methods), the *_lon/*_lat and *_x/*_y/*_z setters (positions rotated among the elements, or scaled), normalize_cartesian_coordinates - then the remap under test against the oracle on the grids' current coordinates.  "
         "non-trivial = source kind has >= 2 elements; distinct = distinct (pair, method, kind, destination, coordinates, k, power, data)")
